@@ -21,7 +21,7 @@ RULE = (
     "schedule. Oracle: two runs built from scratch with equal seeds are bit-identical (samples, log-densities, weights, evidence, every "
     "history series and population, training / validation loss); a third run with another seed differs (guards against "
     "vacuity); a generator supplied by the user was consumed by the run (its state afterwards differs from a fresh generator of the "
-    "same seed). Non-trivial = sampler != importance, or the source supplied through the top-level call."
+    "same seed); when the sampler object is run a second time with another generator, that generator is drawn from and the first one is not. Non-trivial = sampler != importance, or the source supplied through the top-level call."
 )
 ASSUMPTIONS = [
     "runs are executed one after the other in one process; each run constructs its own flow, Aspire instance and generators",
@@ -54,6 +54,8 @@ def _case(draw):
     base["route"] = draw(st.sampled_from(["top", "top", "sample", "ctor"] if comp == "smc" else ["top", "sample"]))
     base["ckpt_every"] = None
     base["resume_pick"] = None
+    # the user's script defines the kernel options dict once and passes the same object to every run
+    base["shared_kwargs"] = draw(st.booleans())
     return base
 
 
@@ -107,7 +109,11 @@ def _flow_run(case, seed):
 _MOVED = {}
 
 
-def _sampler_run(case, seed):
+_SECOND = {}
+_SHARED = {}
+
+
+def _sampler_run(case, seed, second=False):
     import emcee
     import minipcn
 
@@ -116,6 +122,8 @@ def _sampler_run(case, seed):
     gen = np.random.default_rng(seed)
     kw = P.sample_kwargs()
     kw.pop("rng", None)
+    if case.get("shared_kwargs") and "sampler_kwargs" in kw:
+        kw["sampler_kwargs"] = _SHARED.setdefault("sampler_kwargs", kw["sampler_kwargs"])
     route = case["route"]
     minipcn.reset(); emcee.reset()
     minipcn.step_budget = 400
@@ -134,6 +142,22 @@ def _sampler_run(case, seed):
                 sampler = P.aspire.init_sampler(stype, preconditioning=pre, preconditioning_kwargs=prek)
                 s = sampler.sample(n, rng=gen, **kw)
             res = (s, sampler.history) if rh else s
+            if second:
+                # the same sampler object is run again with ANOTHER generator: that one must be drawn from, the first one not
+                after1 = copy.deepcopy(gen.bit_generator.state)
+                gen2 = np.random.default_rng(seed + 1)
+                kw2 = P.sample_kwargs()
+                for k_ in ("rng", "n_samples", "sampler", "preconditioning", "preconditioning_kwargs", "return_history"):
+                    kw2.pop(k_, None)
+                minipcn.reset(); emcee.reset()
+                minipcn.step_budget = 400
+                try:
+                    sampler.sample(n, rng=gen2, **kw2)
+                    _SECOND[id(gen)] = {"g2_consumed": gen2.bit_generator.state != np.random.default_rng(seed + 1).bit_generator.state,
+                                        "g1_untouched": gen.bit_generator.state == after1}
+                except ValueError as e:
+                    if "NaN values" not in str(e):
+                        raise
     except ValueError as e:
         if "NaN values" in str(e):
             return None, gen
@@ -203,7 +227,19 @@ def run_case(case, ctx):
             ctx.fail(f"seed-ignored:{comp}", f"a {comp} run with a different seed is identical: the seed is not used", case)
         return {"nontrivial": comp != "zuko" and comp != "flowjax" or True, "labels": labels}
     labels += ["route:" + case["route"], "pre:" + case["pre"]]
-    s1, g1 = _sampler_run(case, case["seed"])
+    _SHARED.clear()
+    if case.get("shared_kwargs"):
+        labels.append("shared-kwargs-dict")
+    # (emcee is given no generator at all - the recorded finding - so a second call cannot tell anything new about it)
+    s1, g1 = _sampler_run(case, case["seed"], second=comp != "emcee")
+    sec = _SECOND.pop(id(g1), None)
+    if sec is not None:
+        labels.append("sampler-run-again")
+        if not sec["g2_consumed"] or not sec["g1_untouched"]:
+            ctx.fail(f"second-call-generator:{comp}", f"a second sample(rng=g2) call on the same {comp} sampler object "
+                                                      f"{'never drew from g2' if not sec['g2_consumed'] else 'drew from g2'} and "
+                                                      f"{'kept drawing from the generator of the first call' if not sec['g1_untouched'] else 'left the first generator alone'}",
+                     case, route=case["route"], **sec)
     if s1 is None:
         return {"nontrivial": False, "labels": labels + ["rejected:documented-NaN-ValueError"]}
     s2, g2 = _sampler_run(case, case["seed"])
